@@ -351,7 +351,7 @@ fn scan<const N: usize, H: HandN<N>>(run: &mut Run, mode: Mode, cfg: &ScanCfg) -
                 Ok(Some(wbad)) => {
                     acc.fail = examine::<N, H>(t, wbad, exp, mode);
                     if acc.fail.is_none() {
-                        panic!("fast and slow paths disagree on {:?}", wbad);
+                        panic!("fast and slow paths disagree on {:?} (the same call gave different results when repeated: the code under test is not a function of its input)", wbad);
                     }
                     return false;
                 }
@@ -510,6 +510,62 @@ fn all_orders<const N: usize, H: HandN<N>>(run: &mut Run, mode: Mode, hands: u32
     Ok(())
 }
 
+/// thorough tier: every six-card subset under every one of the 720 slot orders
+fn six_all_orders(run: &mut Run, mode: Mode) -> PResult {
+    struct AO {
+        n: u64,
+        fail: Option<Fail>,
+    }
+    impl Acc for AO {
+        fn merge(&mut self, o: Self) {
+            self.n += o.n;
+            if self.fail.is_none() {
+                self.fail = o.fail.clone();
+            }
+        }
+        fn failed(&self) -> bool {
+            self.fail.is_some()
+        }
+    }
+    let t = poker::tables();
+    let rows = pos_table::<6>();
+    let perms: Vec<[u8; 6]> = (0..720).map(perm_from_index::<6>).collect();
+    let acc = par_tuples::<6, AO>(52, true, || AO { n: 0, fail: None }, |acc, c| {
+        let (exp, _, _) = model_best(t, &rows, c);
+        let w = words_of_ci(c);
+        acc.n += 1;
+        let r = guard(|| {
+            for p in perms.iter() {
+                let wp = engine::apply_perm(&w, p);
+                if !fast_ok::<6, H6>(t, wp, exp, mode, false) {
+                    return Some(wp);
+                }
+            }
+            None
+        });
+        match r {
+            Ok(None) => true,
+            Ok(Some(wp)) => {
+                acc.fail = examine::<6, H6>(t, wp, exp, mode);
+                if acc.fail.is_none() {
+                    panic!("fast and slow paths disagree on {:?} (the same call gave different results when repeated: the code under test is not a function of its input)", wp);
+                }
+                false
+            }
+            Err(_) => {
+                acc.fail = perms.iter().find_map(|p| examine::<6, H6>(t, engine::apply_perm(&w, p), exp, mode));
+                false
+            }
+        }
+    });
+    run.generator("all 6-card subsets x all 720 slot orders", "exhaustive", Some(choose(52, 6)), acc.n, acc.n, "cases = subsets, each under every slot order (14.66e9 evaluations)");
+    run.extra.insert("evaluations_six_all_orders".into(), json!(acc.n * 720));
+    if let Some(f) = &acc.fail {
+        return report(run, f);
+    }
+    Ok(())
+}
+
 // ---------------------------------------------------------------------------------------------
 // purity: ranking is a function of the hand alone (no state may leak between calls)
 
@@ -570,6 +626,19 @@ fn neighbour<const N: usize>(c: &[u8; N], kind: u8, param: u64) -> [u8; N] {
 /// rank the hands of `seq` in order, on this thread, and compare every call with the model
 fn sequence_check<const N: usize, H: HandN<N>>(seq: &[[u8; N]]) -> Result<(), String> {
     let t = poker::tables();
+    // warm-up call with a fixed unrelated hand, so that whatever an earlier sequence (or an earlier
+    // shrinking attempt) left behind in the code under test does not decide this sequence's outcome
+    {
+        let mut warm = [0u8; N];
+        for (i, x) in warm.iter_mut().enumerate() {
+            *x = [51u8, 47, 43, 39, 35, 0, 5][i]; // A♠ K♠ Q♠ J♠ T♠ 2♣ 3♦
+        }
+        let exp = poker::best_direct(t, &warm);
+        let got = guard(|| H::hrv(words_of_ci(&warm)));
+        if got != Ok(exp) {
+            return Err(format!("warm-up call {}::hand_rank_value([{}]) returned {:?}, expected {}", H::NAME, card::render_hand(&words_of_ci(&warm)), got, exp));
+        }
+    }
     for (i, c) in seq.iter().enumerate() {
         let exp = poker::best_direct(t, c);
         let w = words_of_ci(c);
@@ -577,7 +646,7 @@ fn sequence_check<const N: usize, H: HandN<N>>(seq: &[[u8; N]]) -> Result<(), St
         if got != Ok(exp) {
             let before: Vec<String> = seq[..i].iter().map(|h| card::render_hand(&words_of_ci(h))).collect();
             return Err(format!(
-                "call {} of a sequence of {}::hand_rank_value calls: [{}] returned {:?}, the best five-card hand it contains has ordinal {} (calls before it: {})",
+                "call {} of a sequence of {}::hand_rank_value calls: [{}] returned {:?}, the best five-card hand it contains has ordinal {} (calls before it, after a warm-up call on A♠ K♠ Q♠ J♠ T♠ 2♣ 3♦: {})",
                 i + 1,
                 H::NAME,
                 card::render_hand(&w),
@@ -659,10 +728,13 @@ pub fn run_c02(run: &mut Run) -> PResult {
     if !twin {
         all_orders::<6, H6>(run, Mode::Value, if thorough { 400_000 } else { 40_000 })?;
         all_orders::<7, H7>(run, Mode::Value, if thorough { 80_000 } else { 8_000 })?;
+        if thorough {
+            six_all_orders(run, Mode::Value)?;
+        }
     }
     run.exhaustive = thorough;
     run.exhaustive_note = if thorough {
-        "all six- and all seven-card subsets in canonical order; slot orders are sampled (4 seeded per hand + all orders for a random sample)".into()
+        "all six-card subsets under all 720 slot orders; all seven-card subsets ascending, descending and in 4 seeded orders (the 5,040 orders are sampled: all orders for 80,000 random hands)".into()
     } else {
         "all six-card subsets; seven-card subsets: seeded 1-in-8 stratum; slot orders sampled".into()
     };
@@ -785,6 +857,9 @@ pub fn run_c03(run: &mut Run) -> PResult {
     if !twin {
         all_orders::<6, H6>(run, Mode::Witness, if thorough { 400_000 } else { 40_000 })?;
         all_orders::<7, H7>(run, Mode::Witness, if thorough { 80_000 } else { 8_000 })?;
+        if thorough {
+            six_all_orders(run, Mode::Witness)?;
+        }
     }
     run.exhaustive = thorough;
     run.exhaustive_note = if thorough { "all five-card hands x 120 orders; all six- and seven-card subsets in canonical order; other slot orders sampled".into() } else { "all five-card hands x 120 orders; all six-card subsets; seven-card subsets: seeded 1-in-8 stratum".into() };
